@@ -233,6 +233,18 @@ def run(check):
                     'when exists(%s) is False the batch can be abandoned without incrementing droppedCreates' % mvar)
     else:
       r_acc.ok('not-exists branch increments droppedCreates', fn.loc(a.ast))
+  for dn in [x for x in dropped if x in g.reach(after_drain, removed_nodes={d})]:
+    def not_exists(a, lab, b):
+      return isinstance(lab, tuple) and lab[0] == 'F' and isinstance(lab[1], ast.Call) and is_db(lab[1], 'exists') and lab[1].args and \
+        isinstance(lab[1].args[0], ast.Name) and lab[1].args[0].id == mvar
+    if dn in g.reach(after_drain, removed_nodes={d}, removed_edge=not_exists, normal_only=True):
+      p_ = g.path(after_drain, dn, removed_nodes={d}, removed_edge=not_exists, normal_only=True)
+      tests = [x for x in (p_ or []) if x.kind == 'test']
+      r_acc.violate('batch dropped although its file may exist', fn, tests[-1].ast if tests else dn.ast,
+                    'a drained batch can be counted as a dropped create (and discarded) without database.exists(%s) having answered '
+                    'False: data for a metric whose file exists is never written' % mvar, path=g.describe_path(p_))
+    else:
+      r_acc.ok('droppedCreates only after exists(%s) answered False' % mvar, fn.loc(dn.ast))
   for w in writes:
     rr = g.reach(g.after(w, normal_only=True), removed_nodes=set(committed), normal_only=True)
     if d in rr or g.exit in rr:
